@@ -26,6 +26,10 @@ def shard(seed, idx, n, tier):
     for _ in range(max(2, n // 2)):
         cliequiv.equiv_case(rng, res, "run")
     cliequiv.equiv_case(rng, res, "mock")
+    # ... and which library call it makes, argument by argument (harness/clicall.py, model InToto/CliCall.lean)
+    from harness import clicall
+    for _ in range(max(4, n)):
+        clicall.one_case(rng, res, "run")
     return res
 
 
